@@ -2056,6 +2056,293 @@ def run_value_history(ctx, V, zoo, spaces, n_seq):
                     {'stream': 'valuehistory', 'space': skey, 'seed': seed, 'steps': steps})
 
 
+# ---------------------------------------------------------------------------
+# special values in reduction-like paths; argument forms
+
+def same_special(a, b):
+    """NaN-aware equality that also distinguishes signed zeros; same dtype and shape."""
+    a, b = np.asarray(a), np.asarray(b)
+    if a.shape == () and b.shape == ():
+        # scalars: ODL hands back Python / NumPy scalars (`.item()`), compare the values
+        b = b.astype(a.dtype) if a.dtype.kind == b.dtype.kind else b
+    if a.shape != b.shape or (a.shape != () and a.dtype != b.dtype) or not same_values(a, b):
+        return False
+    if a.dtype.kind == 'f':
+        with np.errstate(all='ignore'):
+            z = (a == 0) & (b == 0)
+            return bool(np.all(np.signbit(a)[z] == np.signbit(b)[z])) if z.ndim else \
+                bool((not z) or np.signbit(a) == np.signbit(b))
+    return True
+
+
+def outcome(f):
+    with warnings.catch_warnings():
+        warnings.simplefilter('ignore')
+        with np.errstate(all='ignore'):
+            try:
+                return ('ok', f())
+            except Exception as e:  # noqa
+                return ('err', e)
+
+
+def compare_outcomes(ref, res, doc=None):
+    """(code, text) or None: outcome class and numbers of an ODL call vs NumPy's."""
+    if res[0] == 'err' and doc is not None and type(res[1]).__name__ == doc:
+        return None
+    if ref[0] == 'err':
+        if res[0] == 'ok':
+            return ('accepted-where-numpy-raises', type(ref[1]).__name__)
+        if not (isinstance(res[1], type(ref[1])) or isinstance(ref[1], type(res[1]))):
+            return ('exception-class:{}-vs-numpy-{}({})'.format(
+                type(res[1]).__name__, type(ref[1]).__name__, msg_tag(res[1])),
+                str(res[1])[:120])
+        return None
+    if res[0] == 'err':
+        return ('impl-raised:{}({})'.format(type(res[1]).__name__, msg_tag(res[1])),
+                '{}: {}'.format(type(res[1]).__name__, str(res[1])[:140]))
+    if doc is not None:
+        return ('documented-rejection-missing', 'call succeeded')
+    a, b = ref[1], res[1]
+    if a is None or b is None:
+        return None if (a is None and b is None) else ('not-none', 'None expected')
+    if not same_special(value_of(b), np.asarray(a)):
+        vb, va = value_of(b), np.asarray(a)
+        return ('values-differ', '{} ({}) vs NumPy {} ({})'.format(
+            vb.ravel()[:6], vb.dtype, va.ravel()[:6], va.dtype))
+    return None
+
+
+SPECIAL_SPACES = ['t_float64_23', 't_float32_3', 'd_float64_23', 'd_float64_4', 'p_float64_2x3',
+                  'p_discr_2x4', 'p_float32_2x3', 't_complex128_3']
+SPECIALS = [('nan', float('nan')), ('+inf', float('inf')), ('-inf', float('-inf')),
+            ('-0', -0.0), ('nan+inf', None)]
+
+
+def special_reductions(kind, ndim):
+    """(label, function on an element-or-array) of every reduction-like path."""
+    out = []
+    for un in ('add', 'multiply', 'maximum', 'minimum', 'fmax', 'fmin'):
+        u = getattr(np, un)
+        out.append((un + '.reduce(axis=None)', lambda x, u=u: u.reduce(x, axis=None)))
+        out.append((un + '.accumulate', lambda x, u=u: u.accumulate(x)))
+        if ndim >= 2:
+            out.append((un + '.accumulate(axis=1)', lambda x, u=u: u.accumulate(x, axis=1)))
+        if kind != 'power':      # axis reductions of power spaces: open finding C17-F6c
+            out.append((un + '.reduce', lambda x, u=u: u.reduce(x)))
+            if ndim >= 2:
+                out.append((un + '.reduce(axis=-1)', lambda x, u=u: u.reduce(x, axis=-1)))
+    for fn in ('sum', 'prod', 'min', 'max'):
+        out.append(('np.' + fn, lambda x, fn=fn: getattr(np, fn)(x)))
+    return out
+
+
+def run_special(ctx, V, zoo, spaces):
+    """SPECIAL-VALUE stratum: NaN, +-inf, a negative zero (and NaN together with inf) placed at
+    EVERY position of the data (every part, first / middle / last entry) of tensor,
+    discretized and power-space elements; every reduction-like path (ufunc.reduce with and
+    without axis, accumulate, np.sum/prod/min/max, legacy x.ufuncs.sum/prod/min/max with and
+    without axis) compared with NumPy on the underlying array (NaN-aware, sign of zero)."""
+    for skey in SPECIAL_SPACES:
+        kind, space = zoo[skey][0], spaces[skey]
+        dt = base_dtype(space)
+        shape = tuple(space.shape)
+        n = int(np.prod(shape))
+        reds = special_reductions(kind, len(shape))
+        for sname, sval in SPECIALS:
+            for pos in range(n):
+                base = values(shape, dt, 1).copy()
+                base[base == 0] = 1      # keep the signed zero the only zero
+                flat = base.reshape(-1)
+                if sval is None:
+                    flat[pos] = np.nan
+                    flat[(pos + 1) % n] = np.inf
+                else:
+                    flat[pos] = sval
+                try:
+                    x = space.element(base.copy())
+                except Exception as e:  # noqa
+                    V.add('special kind={} value={} pos={} code=construction-raised:{}'.format(
+                        kind, sname, pos, type(e).__name__), str(e)[:160],
+                        {'stream': 'special', 'space': skey, 'value': sname, 'pos': pos})
+                    continue
+                cases = [(lab, f, f) for lab, f in reds]
+                for fn, un in (('sum', 'add'), ('prod', 'multiply'), ('min', 'minimum'),
+                               ('max', 'maximum')):
+                    cases.append(('x.ufuncs.' + fn + '()',
+                                  lambda a, un=un: getattr(np, un).reduce(a, axis=None),
+                                  lambda e, fn=fn: getattr(e.ufuncs, fn)()))
+                    if kind != 'power':
+                        cases.append(('x.ufuncs.' + fn + '(axis=0)',
+                                      lambda a, un=un: getattr(np, un).reduce(a, axis=0),
+                                      lambda e, fn=fn: getattr(e.ufuncs, fn)(axis=0)))
+                for lab, fnp, fodl in cases:
+                    ref = outcome(lambda: fnp(base.copy()))
+                    res = outcome(lambda: fodl(x))
+                    ctx.case(('special', skey, sname, pos, lab)
+                             if ref[0] == 'ok' and res[0] == 'ok' else None)
+                    ctx.hit('special/{}/{}'.format(kind, sname))
+                    pr = compare_outcomes(ref, res)
+                    if pr is None and not same_special(value_of(x), base):
+                        pr = ('input-modified', 'the element changed')
+                    if pr:
+                        V.add('special kind={} fam={} path={} value={} code={} [space={} pos={}]'
+                              .format(kind, skey.split('_')[0], lab, sname, pr[0], skey, pos),
+                              '{} with {} at flat position {} of {}: {}'.format(
+                                  lab, sname, pos, list(shape), pr[1])[:500],
+                              {'stream': 'special', 'space': skey, 'value': sname, 'pos': pos,
+                               'path': lab})
+
+
+def argform_cases(kind, space, x, xa, odl_mod):
+    """(keyword, form label, numpy thunk, odl thunk, documented rejection) for every keyword
+    the glue looks at or normalises."""
+    nd = xa.ndim
+    cases = []
+
+    def add(kw, form, fnp, fodl, doc=None):
+        cases.append((kw, form, fnp, fodl, doc))
+    last = nd - 1
+    axis_forms = [('int', last), ('negint', -1), ('np.int32', np.int32(last)),
+                  ('np.int64', np.int64(-1)), ('np.intp', np.intp(0)),
+                  ('0d-array', np.array(last)), ('tuple1', (last,)), ('list', [0]),
+                  ('None', None), ('bool', True), ('float', 1.0)]
+    if nd >= 2:
+        axis_forms += [('tuple2', (0, 1)), ('tuple-np', (np.int64(0), np.int32(-1))),
+                       ('tuple-dup', (0, 0))]
+    for form, ax in axis_forms:
+        add('axis', 'reduce/' + form, lambda ax=ax: np.add.reduce(xa.copy(), axis=ax),
+            lambda ax=ax: np.add.reduce(x, axis=ax))
+        add('axis', 'np.sum/' + form, lambda ax=ax: np.sum(xa.copy(), axis=ax),
+            lambda ax=ax: np.sum(x, axis=ax))
+        if not isinstance(ax, (tuple, list)) and ax is not None:
+            add('axis', 'accumulate/' + form,
+                lambda ax=ax: np.add.accumulate(xa.copy(), axis=ax),
+                lambda ax=ax: np.add.accumulate(x, axis=ax))
+        add('axis', 'legacy-sum/' + form, lambda ax=ax: np.add.reduce(xa.copy(), axis=ax),
+            lambda ax=ax: x.ufuncs.sum(axis=ax))
+    for form, kd in [('True', True), ('False', False), ('np.bool_T', np.bool_(True)),
+                     ('np.bool_F', np.bool_(False)), ('int1', 1), ('int0', 0)]:
+        doc = 'ValueError' if (kind == 'discr' and bool(kd)) else None
+        add('keepdims', form, lambda kd=kd: np.add.reduce(xa.copy(), axis=0, keepdims=kd),
+            lambda kd=kd: np.add.reduce(x, axis=0, keepdims=kd), doc)
+    for form, dt in [('str', 'float32'), ('np.dtype', np.dtype('float32')),
+                     ('type', np.float32), ('pytype', complex), ('char', 'D'),
+                     ('None', None)]:
+        add('dtype', 'call/' + form, lambda dt=dt: np.add(xa.copy(), 1, dtype=dt),
+            lambda dt=dt: np.add(x, 1, dtype=dt))
+        add('dtype', 'reduce/' + form, lambda dt=dt: np.add.reduce(xa.copy(), axis=0, dtype=dt),
+            lambda dt=dt: np.add.reduce(x, axis=0, dtype=dt))
+    # out: tuple / bare element / bare ndarray / list / explicit None
+
+    def out_pair():
+        return space.element(np.zeros(xa.shape, xa.dtype)), np.zeros(xa.shape, xa.dtype)
+    for form in ('tuple', 'bare-element', 'bare-ndarray', 'tuple-ndarray', 'list', 'None',
+                 'tuple-None'):
+        def fnp(form=form):
+            o = np.zeros(xa.shape, xa.dtype)
+            arg = {'tuple': (o,), 'bare-element': o, 'bare-ndarray': o, 'tuple-ndarray': (o,),
+                   'list': [o], 'None': None, 'tuple-None': (None,)}[form]
+            r = np.add(xa.copy(), 1, out=arg)
+            return r
+
+        def fodl(form=form):
+            oe, oa = out_pair()
+            arg = {'tuple': (oe,), 'bare-element': oe, 'bare-ndarray': oa,
+                   'tuple-ndarray': (oa,), 'list': [oe], 'None': None,
+                   'tuple-None': (None,)}[form]
+            r = np.add(x, 1, out=arg)
+            given = oe if form in ('tuple', 'bare-element', 'list') else \
+                (oa if form in ('bare-ndarray', 'tuple-ndarray') else None)
+            if given is not None and r is not given:
+                raise AssertionError('the given out is not the returned object')
+            return r
+        add('out', form, fnp, fodl)
+    # indices of reduceat / at
+    for form, idx in [('list', [0, 1]), ('tuple', (0, 1)), ('np.int64-array', np.array([0, 1])),
+                      ('np.int32-array', np.array([0, 1], dtype='int32')),
+                      ('list-np.int64', [np.int64(0), np.int64(1)])]:
+        doc = 'ValueError' if kind == 'discr' else None
+        add('indices', 'reduceat/' + form, lambda idx=idx: np.add.reduceat(xa.copy(), idx),
+            lambda idx=idx: np.add.reduceat(x, idx), doc)
+    for form, idx in [('list', [0, 0]), ('int', 1), ('np.int64', np.int64(1)),
+                      ('np-array', np.array([1, 0])), ('tuple-of-lists',
+                                                       ([0, 1],) + (([0, 0],) if nd >= 2 else ())),
+                      ('slice', slice(0, 1)), ('bool-mask', np.arange(xa.shape[0]) % 2 == 0)]:
+        def fnp(idx=idx):
+            a = xa.copy()
+            np.add.at(a, idx, 2)
+            return a
+
+        def fodl(idx=idx):
+            e = space.element(xa.copy())
+            np.add.at(e, idx, 2)
+            return e
+        add('indices', 'at/' + form, fnp, fodl)
+    # initial / where
+    for form, ini in [('int', 5), ('float', 0.5), ('np.float64', np.float64(2.0)),
+                      ('-inf', -np.inf)]:
+        add('initial', form, lambda ini=ini: np.maximum.reduce(xa.copy(), axis=0, initial=ini),
+            lambda ini=ini: np.maximum.reduce(x, axis=0, initial=ini))
+    mask = (np.arange(xa.size).reshape(xa.shape) % 2 == 0)
+    for form, wh in [('bool-array', mask), ('True', True), ('list', mask.tolist()),
+                     ('element', None)]:
+        def fnp(wh=wh):
+            w = mask if wh is None else wh
+            return np.add.reduce(xa.copy(), axis=0, where=w, initial=0)
+
+        def fodl(wh=wh):
+            w = odl_mod.tensor_space(xa.shape, dtype=bool).element(mask) if wh is None else wh
+            return np.add.reduce(x, axis=0, where=w, initial=0)
+        add('where', 'reduce/' + form, fnp, fodl)
+
+        def fnp2(wh=wh):
+            w = mask if wh is None else wh
+            o = np.full(xa.shape, 7, xa.dtype)
+            return np.add(xa.copy(), 1, out=o, where=w)
+
+        def fodl2(wh=wh):
+            w = odl_mod.tensor_space(xa.shape, dtype=bool).element(mask) if wh is None else wh
+            o = space.element(np.full(xa.shape, 7, xa.dtype))
+            r = np.add(x, 1, out=o, where=w)
+            if r is not o:
+                raise AssertionError('the given out is not the returned object')
+            return r
+        add('where', 'call/' + form, fnp2, fodl2)
+    return cases
+
+
+ARGFORM_SPACES = ['t_float64_23', 't_float64_3', 'd_float64_23', 'd_float64_4', 'tw_float64_23']
+
+
+def run_argforms(ctx, V, zoo, spaces):
+    """ARGUMENT-FORM strata: every keyword the glue looks at or normalises (axis, keepdims,
+    dtype, out, indices of reduceat / at, initial, where) in every form NumPy accepts or
+    rejects (Python int, negative, np.int32/int64/intp scalars, 0-d arrays, tuples, lists,
+    None, bool, float; dtype as string / np.dtype / type; out as tuple / bare / list / None):
+    outcome class and numbers compared with NumPy on the plain array."""
+    import odl
+    for skey in ARGFORM_SPACES:
+        kind, space = zoo[skey][0], spaces[skey]
+        xa = values(tuple(space.shape), base_dtype(space), 1)
+        x = space.element(xa.copy())
+        for kw, form, fnp, fodl, doc in argform_cases(kind, space, x, xa, odl):
+            ref = outcome(fnp)
+            res = outcome(fodl)
+            ctx.case(('argform', skey, kw, form) if ref[0] == 'ok' and res[0] == 'ok' else None)
+            ctx.hit('argform/{}/{}'.format(kw, form))
+            if doc is not None and ref[0] == 'err':
+                doc = None
+            pr = compare_outcomes(ref, res, doc)
+            if pr is None and not same_special(value_of(x), xa):
+                pr = ('input-modified', 'the element changed')
+                x = space.element(xa.copy())
+            if pr:
+                V.add('argform kind={} fam={} kw={} form={} code={} [space={}]'.format(
+                    kind, skey.split('_')[0], kw, form, pr[0], skey),
+                    '{}={}: {}'.format(kw, form, pr[1])[:500],
+                    {'stream': 'argform', 'space': skey, 'kw': kw, 'form': form})
+
+
 def model_branch(c, r, ans):
     """Which branch of the Lean model answered: model/<kind>/<method>/<outcome class>."""
     if ans.startswith('ok '):
@@ -2129,10 +2416,59 @@ EXPECTED_MODEL_BRANCHES = [
 ]
 
 
+SPECIAL_ARGFORM_STRATA = [
+    'argform/axis/accumulate/0d-array', 'argform/axis/accumulate/bool',
+    'argform/axis/accumulate/float', 'argform/axis/accumulate/int',
+    'argform/axis/accumulate/negint', 'argform/axis/accumulate/np.int32',
+    'argform/axis/accumulate/np.int64', 'argform/axis/accumulate/np.intp',
+    'argform/axis/legacy-sum/0d-array', 'argform/axis/legacy-sum/None',
+    'argform/axis/legacy-sum/bool', 'argform/axis/legacy-sum/float',
+    'argform/axis/legacy-sum/int', 'argform/axis/legacy-sum/list',
+    'argform/axis/legacy-sum/negint', 'argform/axis/legacy-sum/np.int32',
+    'argform/axis/legacy-sum/np.int64', 'argform/axis/legacy-sum/np.intp',
+    'argform/axis/legacy-sum/tuple-dup', 'argform/axis/legacy-sum/tuple-np',
+    'argform/axis/legacy-sum/tuple1', 'argform/axis/legacy-sum/tuple2',
+    'argform/axis/np.sum/0d-array', 'argform/axis/np.sum/None', 'argform/axis/np.sum/bool',
+    'argform/axis/np.sum/float', 'argform/axis/np.sum/int', 'argform/axis/np.sum/list',
+    'argform/axis/np.sum/negint', 'argform/axis/np.sum/np.int32',
+    'argform/axis/np.sum/np.int64', 'argform/axis/np.sum/np.intp',
+    'argform/axis/np.sum/tuple-dup', 'argform/axis/np.sum/tuple-np',
+    'argform/axis/np.sum/tuple1', 'argform/axis/np.sum/tuple2',
+    'argform/axis/reduce/0d-array', 'argform/axis/reduce/None', 'argform/axis/reduce/bool',
+    'argform/axis/reduce/float', 'argform/axis/reduce/int', 'argform/axis/reduce/list',
+    'argform/axis/reduce/negint', 'argform/axis/reduce/np.int32',
+    'argform/axis/reduce/np.int64', 'argform/axis/reduce/np.intp',
+    'argform/axis/reduce/tuple-dup', 'argform/axis/reduce/tuple-np',
+    'argform/axis/reduce/tuple1', 'argform/axis/reduce/tuple2', 'argform/dtype/call/None',
+    'argform/dtype/call/char', 'argform/dtype/call/np.dtype', 'argform/dtype/call/pytype',
+    'argform/dtype/call/str', 'argform/dtype/call/type', 'argform/dtype/reduce/None',
+    'argform/dtype/reduce/char', 'argform/dtype/reduce/np.dtype',
+    'argform/dtype/reduce/pytype', 'argform/dtype/reduce/str', 'argform/dtype/reduce/type',
+    'argform/indices/at/bool-mask', 'argform/indices/at/int', 'argform/indices/at/list',
+    'argform/indices/at/np-array', 'argform/indices/at/np.int64', 'argform/indices/at/slice',
+    'argform/indices/at/tuple-of-lists', 'argform/indices/reduceat/list',
+    'argform/indices/reduceat/list-np.int64', 'argform/indices/reduceat/np.int32-array',
+    'argform/indices/reduceat/np.int64-array', 'argform/indices/reduceat/tuple',
+    'argform/initial/-inf', 'argform/initial/float', 'argform/initial/int',
+    'argform/initial/np.float64', 'argform/keepdims/False', 'argform/keepdims/True',
+    'argform/keepdims/int0', 'argform/keepdims/int1', 'argform/keepdims/np.bool_F',
+    'argform/keepdims/np.bool_T', 'argform/out/None', 'argform/out/bare-element',
+    'argform/out/bare-ndarray', 'argform/out/list', 'argform/out/tuple',
+    'argform/out/tuple-None', 'argform/out/tuple-ndarray', 'argform/where/call/True',
+    'argform/where/call/bool-array', 'argform/where/call/element', 'argform/where/call/list',
+    'argform/where/reduce/True', 'argform/where/reduce/bool-array',
+    'argform/where/reduce/element', 'argform/where/reduce/list', 'special/discr/+inf',
+    'special/discr/-0', 'special/discr/-inf', 'special/discr/nan', 'special/discr/nan+inf',
+    'special/power/+inf', 'special/power/-0', 'special/power/-inf', 'special/power/nan',
+    'special/power/nan+inf', 'special/tensor/+inf', 'special/tensor/-0',
+    'special/tensor/-inf', 'special/tensor/nan', 'special/tensor/nan+inf',
+]
+
 EXPECTED_STRATA = (
     ['layout/{}/{}'.format(l, m) for l in ('F', 'strided', 'slice-view')
      for m in ('call', 'at', 'reduce', 'accumulate', 'outer', 'reduceat')] +
     ['history/values/' + k for k in ('tensor', 'discr', 'power')] +
+    SPECIAL_ARGFORM_STRATA +
     ['history/{}/{}'.format(c, s) for c in ('isnan', 'less', 'signbit', 'mul1j', 'add_f32',
                                             'true_divide', 'sin')
      for s in ('rn3^2', 'discr3^2', 'rn4^2', 'cn3^2', 'rn3^3', 'f32_3^2', 'discr2x2^2',
@@ -2311,6 +2647,12 @@ def run(ctx, deep=False):
         if answers[line] != real:
             ctx.disagree({'stream': 'npreduce', 'shape': list(shape), 'axis': list(ax),
                           'line': line}, real, answers[line])
+    for stream_name, stream in (('special', run_special), ('argform', run_argforms)):
+        try:
+            stream(ctx, V, zoo, spaces)
+        except Exception as e:  # noqa
+            V.add('{} stream raised {}({})'.format(stream_name, type(e).__name__, msg_tag(e)),
+                  '{}: {}'.format(type(e).__name__, str(e)[:200]), {'stream': stream_name})
     try:
         run_value_history(ctx, V, zoo, spaces, 6 if ctx.tier == 'quick' else 40)
     except Exception as e:  # noqa
@@ -2322,7 +2664,8 @@ def run(ctx, deep=False):
         V.add('history stream raised {}({})'.format(type(e).__name__, msg_tag(e)),
               '{}: {}'.format(type(e).__name__, str(e)[:200]), {'stream': 'history'})
     V.flush()
-    strata = set(k for k in ctx.branches if k.startswith(('layout/', 'history/')))  # incl. history/values/
+    strata = set(k for k in ctx.branches if k.startswith(('layout/', 'history/', 'special/',
+                                                            'argform/')))  # incl. history/values/
     ctx.extra['unhit_strata'] = sorted(set(EXPECTED_STRATA) - strata)
     if ctx.extra['unhit_strata'] and ctx.tier == 'thorough':
         ctx.disagree({'unhit_strata': ctx.extra['unhit_strata']},
